@@ -8,6 +8,7 @@ trial vectors (i.e. any strategy and any random draws), population size, dimensi
 -/
 import MysticVerif.Proofs.Solver
 import MysticVerif.Proofs.NelderMead
+import MysticVerif.Proofs.PowellS
 
 namespace MysticVerif.C01
 open MysticVerif.Solver
@@ -178,5 +179,68 @@ def exObj : Obj Int Int :=
 example : (DE.run1 exObj [[7, 3], [1, -8]] (DE.init exObj [7, 3] 7)).pop = [1, 3]
     ∧ (DE.run1 exObj [[7, 3], [1, -8]] (DE.init exObj [7, 3] 7)).popE = [1, 9]
     ∧ (DE.run1 exObj [[7, 3], [1, -8]] (DE.init exObj [7, 3] 7)).bestE = 1 := by decide
+
+/-! ## Powell's direction-set solver on the decorated objective (Model/PowellS.lean)
+
+`ls` is an ARBITRARY line-search oracle (any Brent implementation, any tolerance): for the k-th search it names the
+points the decorated cost is called at and the one it returns.  `reach .. n` is the state after generation 0,
+generation 1 and `n` further `_Step`s. -/
+open MysticVerif.PowellS
+
+/-- **Powell, reported best and its only member.** At every `_Step` boundary a finite best energy is cost + penalty
+at the reported best solution, which is a point the user's cost was called at and which the constraints leave
+unchanged (the direction loop re-applies them to every new point). -/
+theorem pw_best_inv [Sub R] [Mul R] [LinearOrder E] (o : Obj (Pt R) E) (h : Hyp o) (c : PwCfg R E)
+    (ls : Nat → Pt R → Pt R → LsRec R) (record : Bool) (x0 : Pt R) (direc : List (Pt R)) (hd : direc ≠ []) (n : Nat)
+    (hfin : (reach o c ls record x0 direc n).fval ≠ o.top) :
+    let s := reach o c ls record x0 direc n
+    s.fval = o.add (o.raw s.x) (o.pen s.x) ∧ (s.x, o.raw s.x) ∈ s.log ∧ o.K s.x = s.x := by
+  intro s
+  have g := (reach_inv h c ls record x0 direc hd n).best hfin
+  exact ⟨g.1, g.2.1, g.2.2.1⟩
+
+/-- the same at generation 0 (the initial evaluation) -/
+theorem pw_best_inv_gen0 [LinearOrder E] (o : Obj (Pt R) E) (h : Hyp o) (c : PwCfg R E) (record : Bool) (x0 : Pt R)
+    (direc : List (Pt R)) (hd : direc ≠ []) (hfin : (gen0 o c record x0 direc).fval ≠ o.top) :
+    let s := gen0 o c record x0 direc
+    s.fval = o.add (o.raw s.x) (o.pen s.x) ∧ (s.x, o.raw s.x) ∈ s.log ∧ o.K s.x = s.x := by
+  intro s
+  have g := (gen0_inv h c record x0 direc hd).best hfin
+  exact ⟨g.1, g.2.1, g.2.2.1⟩
+
+/-- **Powell: the best is never worse than the energy of the initial guess**, given the contract of the line search
+(Brent's bracket starts at `alpha = 0` and returns the best point it evaluated: `LsMono`, checked on every
+recorded search of every real run by the correspondence). -/
+theorem pw_best_le_initial_guess [Sub R] [Mul R] [LinearOrder E] (o : Obj (Pt R) E) (h : Hyp o) (c : PwCfg R E)
+    (ls : Nat → Pt R → Pt R → LsRec R) (hm : LsMono o ls) (record : Bool) (x0 : Pt R) (direc : List (Pt R))
+    (hd : direc ≠ []) (n : Nat) :
+    (reach o c ls record x0 direc n).fval ≤ (gen0 o c record x0 direc).fval := by
+  have h0 := gen0_inv h c record x0 direc hd
+  have h1 := gen1_inv h c ls _ h0.toPwInvK
+  refine le_trans (run_fval_le h c ls hm n _ h1) ?_
+  exact sweep_fval_le h c ls hm _ (h0.toPwInvK.withInternals _ _ _ _ _)
+
+/-! non-vacuity: a concrete one-dimensional Powell run over `Int` (cost `x^2`, constraints `x ↦ max x 1`) -/
+
+def pwObj : Obj (Pt Int) Int :=
+  { raw := fun x => (x.headD 0) * (x.headD 0), pen := fun _ => 0, K := fun x => x.map (fun v => max v 1),
+    inBox := fun _ => true, useRange := false, top := 1000000, add := (· + ·) }
+
+/-- the energy arithmetic of the code on `Int` -/
+def pwCfg : PwCfg Int Int :=
+  { diff := fun a b => a - b, gain := fun fx2 fval delta => decide (delta < fx2 - fval),
+    tneg := fun fx fx2 fval delta =>
+      decide (2 * (fx + fx2 - 2 * fval) * ((fx - fval - delta) * (fx - fval - delta)) - delta * (fx - fx2) * (fx - fx2) < 0),
+    zeroE := 0, two := 2 }
+
+/-- a scripted oracle: three searches -/
+def pwLs : Nat → Pt Int → Pt Int → LsRec Int
+  | 0, _, _ => { pre := [[5], [4]], y := [2], post := [], xi := [-3] }
+  | 1, _, _ => { pre := [[2]], y := [-1], post := [], xi := [-3] }
+  | _, p, _ => { pre := [], y := p, post := [], xi := [0] }
+
+example : (reach pwObj pwCfg pwLs true [5] [[-1]] 1).x = [1] ∧ (reach pwObj pwCfg pwLs true [5] [[-1]] 1).fval = 1 ∧
+    (reach pwObj pwCfg pwLs true [5] [[-1]] 1).log = [([5], 25), ([5], 25), ([4], 16), ([2], 4), ([1], 1), ([2], 4), ([1], 1), ([1], 1)] ∧
+    (reach pwObj pwCfg pwLs true [5] [[-1]] 1).stepLog = [([5], 25), ([-1], 1)] := by decide
 
 end MysticVerif.C01
